@@ -1,123 +1,12 @@
-(* C05 — every step of the connection coroutine and every external event preserves the invariant. *)
+(* C05 — every step and every run of the connection coroutine preserves the invariant *)
 From Coq Require Import String List NArith Arith Bool Lia.
 Import ListNotations.
-From TV Require Import C05.Model C05.Spec C05.Proofs1 C05.Proofs2.
+From TV Require Import C05.Model C05.Spec C05.Proofs1 C05.Proofs2 C05.Tac C05.Proofs2b C05.Proofs3a C05.Proofs3b C05.Proofs3c.
 
-(* ---------- tactics ---------- *)
-Ltac simpg := cbn [pc ndc idx next detached exited pend trace sm wf rf ffd dof ccb responded cur_exp cur_fr sent scq
-                  set_pc set_ndc set_idx set_next set_detached set_exited set_pend set_sm set_wf set_rf
-                  set_ffd set_dof set_ccb set_responded set_cur_exp set_cur_fr set_sent set_scq on_sm dstep Nat.eqb].
-Ltac normg := repeat (progress (simpg; autorewrite with c05)).
-Ltac brk :=
-  repeat match goal with
-         | H : _ /\ _ |- _ => destruct H
-         | H : exists _, _ |- _ => destruct H
-         | H : _ \/ _ |- _ => destruct H
-         end.
-Ltac rwg :=
-  repeat match goal with
-         | H : ds ?s = _ |- context [ds ?s] => rewrite H
-         | H : idx ?s = O |- context [idx ?s] => is_var s; rewrite H
-         | H : idx ?s = S ?x |- context [idx ?s] => is_var s; is_var x; rewrite H
-         | H : ndc ?s = _ |- context [ndc ?s] => is_var s; rewrite H
-         | H : pend ?s = _ |- context [pend ?s] => is_var s; rewrite H
-         | H : next ?s = _ |- context [next ?s] => is_var s; rewrite H
-         end; simpg; rewrite ?Nat.eqb_refl; simpg.
-(* pull every conditional of the (raw) result state out *)
-Ltac ifs := repeat match goal with |- context [if ?b then _ else _] => destruct b eqn:? end.
-Ltac leaf :=
-  intros; try congruence; try discriminate; eauto;
-  try (match goal with H : ?P -> _ = _, H' : ?P |- _ => specialize (H H'); first [discriminate H | congruence] end).
-Ltac fin0 := repeat split; leaf.
-Ltac fin1 :=
-  repeat split;
-  first [ solve [leaf] | solve [left; fin0] | solve [right; fin0] | solve [right; eexists; fin0]
-        | solve [split; [|left]; fin0] | solve [split; [|right]; fin0] | leaf ].
-(* [prep HI Hpc]: open the invariant of the source state (whose pc is known) *)
-Ltac prep HI Hpc :=
-  unfold Inv, core, AInv in HI; rewrite Hpc in HI;
-  unfold apc_inv, apend_ok, ending, opened, settled, fresh in HI; brk;
-  try match goal with H : context [match pend ?s with _ => _ end] |- _ => destruct (pend s) eqn:?; try discriminate H end;
-  brk.
-Ltac fin :=
-  cbv zeta; unfold finally_close, loop_exit; ifs;
-  unfold Inv, core; normg; rwg;
-  unfold AInv, apc_inv, apend_ok, ending, opened, settled, fresh; fin1.
-
-Section Pres.
+Section S.
 Variable parse : list N -> option facts.
 Variable c : cfg.
 Notation Inv := (Inv c).
-
-(* ---------- one step of the coroutine ---------- *)
-Lemma Inv_repc s p q :
-  Inv s -> pc s = p ->
-  (match p, q with
-   | PStart, PWaitHdr => False    (* never used *)
-   | PBody r, PWaitBody r' => r = r'
-   | _, _ => False
-   end) -> Inv (set_pc q s).
-Proof.
-  intros HI Hpc H. destruct p, q; try contradiction. subst. prep HI Hpc; fin.
-Qed.
-
-Lemma step_start s : Inv s -> pc s = PStart -> Inv (step parse c s).
-Proof.
-  intros HI Hpc. unfold step. rewrite Hpc.
-  match goal with |- Inv (do_read c ?s1 WHdr ?sp) =>
-    rewrite (do_read_eq c s1 WHdr sp PWaitHdr); apply do_read_hdr_Inv; [|reflexivity] end.
-  prep HI Hpc; fin.
-Qed.
-
-Lemma step_hdr s d : Inv s -> pc s = PHdr d -> Inv (step parse c s).
-Proof.
-  intros HI Hpc. unfold step. rewrite Hpc.
-  destruct (parse d) as [[|ka ex fr]|].
-  - prep HI Hpc; fin.
-  - destruct (c_h c) eqn:Hh; prep HI Hpc; fin.
-  - prep HI Hpc; fin.
-Qed.
-
-Lemma step_afterh s : Inv s -> pc s = PAfterH -> Inv (step parse c s).
-Proof.
-  intros HI Hpc. unfold step. rewrite Hpc.
-  cbv zeta; ifs; simpg; try destruct (cur_fr s); prep HI Hpc; fin.
-Qed.
-
-Lemma step_body s r : Inv s -> pc s = PBody r -> Inv (step parse c s).
-Proof.
-  intros HI Hpc. unfold step. rewrite Hpc.
-  assert (HR : forall sp, Inv (do_read c s (WBody r) sp)).
-  { intro sp. rewrite (do_read_eq c s (WBody r) sp (PWaitBody r)). apply do_read_body_Inv; [|reflexivity].
-    apply (Inv_repc s (PBody r) (PWaitBody r)); auto. }
-  destruct r as [rem|tot|tot rem|tot|]; try apply HR.
-  - destruct rem; [|apply HR]. prep HI Hpc; fin.
-  - destruct rem; [|apply HR]. prep HI Hpc; fin.
-Qed.
-
-Lemma step_data s r d : Inv s -> pc s = PData r d -> Inv (step parse c s).
-Proof.
-  intros HI Hpc. unfold step. rewrite Hpc.
-  destruct (c_d c) eqn:Hd; prep HI Hpc; fin.
-Qed.
-
-Lemma step_afterbody s : Inv s -> pc s = PAfterBody -> Inv (step parse c s).
-Proof.
-  intros HI Hpc. unfold step. rewrite Hpc.
-  destruct (c_f c) eqn:Hf; prep HI Hpc; fin.
-Qed.
-
-Lemma step_e400 s : Inv s -> pc s = PE400 -> Inv (step parse c s).
-Proof. intros HI Hpc. unfold step. rewrite Hpc. prep HI Hpc; fin. Qed.
-
-Lemma step_end s ret : Inv s -> pc s = PEnd ret -> Inv (step parse c s).
-Proof. intros HI Hpc. unfold step. rewrite Hpc. destruct ret; prep HI Hpc; fin. Qed.
-
-Lemma step_fail s : Inv s -> pc s = PFail -> Inv (step parse c s).
-Proof. intros HI Hpc. unfold step. rewrite Hpc. prep HI Hpc; fin. Qed.
-
-Lemma step_quiet s : Inv s -> pc s = PQuiet -> Inv (step parse c s).
-Proof. intros HI Hpc. unfold step. rewrite Hpc. prep HI Hpc; fin. Qed.
 
 Lemma step_Inv s : Inv s -> Inv (step parse c s).
 Proof.
@@ -127,19 +16,11 @@ Proof.
                 step_end, step_fail, step_quiet.
 Qed.
 
-Lemma Inv_out_of_fuel s w : Inv s -> parked (pc s) = false -> Inv (set_pc (PErr w) s).
-Proof.
-  intros HI Hp.
-  destruct (pc s) eqn:Hpc; try discriminate Hp.
-  all: prep HI Hpc.
-  all: try (destruct ret; brk).
-  all: fin.
-Qed.
-
 Lemma run_Inv fuel s : Inv s -> Inv (run parse c fuel s).
 Proof.
   revert s. induction fuel as [|f IH]; intros s HI; cbn [run].
-  - destruct (parked (pc s)) eqn:Hp; [exact HI|]. apply Inv_out_of_fuel; assumption.
+  - destruct (parked (pc s)) eqn:Hp; [exact HI|]. apply Inv_err; assumption.
   - destruct (parked (pc s)); [exact HI|]. apply IH, step_Inv, HI.
 Qed.
-End Pres.
+
+End S.
